@@ -137,6 +137,83 @@ CHECKS = {
         "formats, CSV output cell by cell.",
         "Trusted: Lean kernel; standard axioms; hand-written model of IpmParamReader validated by correspondence; csv module.",
         "DESIGN.md §8 C18"),
+    'C01': (
+        "Lean 4 theorems (field-level round trip for every well-formed value kind; element loop by induction over the bit list; bitmap bits<->bytes<->hex; message level; dictionary lookups) generic in configuration, codec and bitmap rendering + behavioural correspondence",
+        "Machine-checked proof, generic in cfg / codec / bitmap form: for every message with a 4-digit MTI whose present "
+        "elements are well formed (WFField: exact-width or prefix-countable encodable text, 0 <= n < 10^w numbers, "
+        "date-times whose rendering parses back, PDS-structured carriers, complete TLV data), decode(encode m) succeeds and "
+        "returns the MTI, every element's value (masked form / prefix where configured) and otherwise only derived entries "
+        "(Props/C01.lean C01_roundtrip); the environment hypotheses are discharged for latin_1/cp500/cp037 and the measured "
+        "int() classes by decide +kernel on tables regenerated from /repo and the interpreter each run. Messages that "
+        "supply PDSxxxx KEYS (re-packed by the encoder) are covered by C12's packing/recovery theorems and by "
+        "correspondence, not yet by the end-to-end theorem. Tied to /repo by differential execution over every single "
+        "bit, every pair, boundary/every length, 6 codecs x 2 bitmap forms, packaged + generated configurations.",
+        "Trusted: Lean kernel; standard axioms; hand-written model; strptime(strftime d)=d is a hypothesis of WFField.date "
+        "(validated differentially); DE43 keys applied by Python's re in the harness.",
+        "DESIGN.md §8 C01"),
+    'C02': (
+        "Lean 4 theorems (absolute layout: per-element rendering relation, bitmap flags, element order, refusal of over-long variable values, hex bitmap alphabet; reading direction via C01) + byte-for-byte / key-for-key comparison with an independent reference codec",
+        "Machine-checked proof: whenever encodeField returns, the bytes are the documented rendering (left-justified "
+        "space-padded exact width; zero-padded numbers; 2-/3-digit count + exactly that many bytes; binary untouched); "
+        "encodeBits output is the concatenation of the present elements in ascending order; the message is MTI ++ bitmap "
+        "++ elements with bit 1 set and bit n set iff element n is emitted; the hex form is 32 lowercase hex characters; "
+        "a variable value with 10^w or more characters is refused with the library error (Props/C02.lean). Tied to /repo by "
+        "comparison with an independent reference encoder/decoder on the C01 streams plus short fixed values and over-long "
+        "values on every variable element.",
+        "Trusted: as C01; harness/isoutil.py ref_encode/ref_decode written from the documentation.",
+        "DESIGN.md §8 C02"),
+    'C08': (
+        "Lean 4 theorems (soundness: decode ok => the flagged elements tile the data exactly under an independent pointer-free reading, declared lengths non-negative, values decoded from their own bytes; completeness: tiles + decodable contents => accepted) + comparison with an independent strict reference decoder on near-valid inputs",
+        "Machine-checked proof for every byte string, codec and configuration: if loads returns, the header is well formed, "
+        "`frames` (prefix, declared length from int() and never negative, content) succeeds on the flagged elements, the "
+        "data equals the concatenation of the elements' prefix and content bytes with every content of exactly its "
+        "declared length, and the dictionary is the element-wise decoding of those contents; conversely any message that "
+        "tiles and whose contents decode is accepted with that dictionary (Props/C08.lean). Tied to /repo by ~16k "
+        "near-valid mutants (prefix digits, re-pointed lengths, zero lengths, bitmap flips incl. bits 1 and 128, "
+        "truncation/extension) against a strict reference decoder.",
+        "Trusted: as C01; PDS / TLV sub-element values cut short by the end of their carrier are accepted by the code and by the model (recorded, not forbidden by the property).",
+        "DESIGN.md §8 C08"),
+    'C12': (
+        "Lean 4 theorems (greedy packing: flatten = entries, every chunk <= 999, whole-entry groups, greedy chain; carrier assignment in ascending order; recovery of every sub-element by the tag/length/value walk, using int(format(n)) = n) + behavioural correspondence with a boundary sweep",
+        "Machine-checked proof for any number of sub-elements: the carrier strings concatenate to the entries in order, hold "
+        "at most 999 characters, are concatenations of whole entries, a carrier is closed only when the next entry does not "
+        "fit; the i-th string becomes the i-th carrier in ascending element order; walking a carrier of whole entries "
+        "returns exactly those entries (zero-length and header-like values included) (Props/C12.lean). Tied to /repo by "
+        "every pair of value lengths at the 999 boundary (quick 998..1000, thorough 985..1005), 1..6 chunks, unsorted "
+        "insertion order, generated carrier sets; carriers read back with a PDS-less configuration.",
+        "Trusted: as C01; sortedness of the key order is established by correspondence (the sort itself is modelled, its "
+        "sortedness lemma is not proved).",
+        "DESIGN.md §8 C12"),
+    'C17': (
+        "Lean 4 theorems (blocked writer output of any block count is reported blocked, via the C04 block structure; unblocked rule; three invalid classes; validity; encoding family from generated isnumeric tables) + behavioural correspondence on writer output of every block count",
+        "Machine-checked proof: for EVERY record list the 1014-blocked writer output passes the block check on its 2500-byte "
+        "sample (generic in payload size P and sample size S >= 2(P+2)); an unblocked file is reported unblocked unless "
+        "bytes 1012-1013 are 0x40 0x40; inputs under 24 bytes, with a first length above the maximum, or with an "
+        "unconfigured bit are invalid with that reason; ASCII / EBCDIC digit MTIs give latin1 / cp037 by decide on the "
+        "isnumeric tables measured each run (Props/C17.lean). Tied to /repo by writer output for block counts 1..10,12,20 x "
+        "6 codecs x 2 formats, stream lengths aligned to block boundaries, and the invalid classes at their boundaries.",
+        "Trusted: as C03/C04; the link 'writer output has a valid first length/bitmap/MTI' rests on C02's layout theorem plus correspondence.",
+        "DESIGN.md §8 C17"),
+    'C19': (
+        "Lean 4 theorems (record re-coding reversible for mutually inverse codec tables, checked by decide on the generated tables; tool output = writer file of the re-coded records in order; read-back via C06) + behavioural correspondence through the four tools incl. real files",
+        "Machine-checked proof: decode(A).encode(B) followed by decode(B).encode(A) is the identity on records for codecs whose "
+        "tables are mutually inverse (latin_1, cp500, cp037: decide +kernel each run); the parameter tool's output on a "
+        "writer-produced file is the writer's file of the re-coded records (count and order preserved, any format pair); the "
+        "IPM tools' output is the writer's file of the re-encoded messages and reads back as their decodings (Props/C19.lean). "
+        "Byte-for-byte reversibility of IPM files rests on these plus correspondence (encode(decode r) = r for "
+        "writer-produced records is exercised, not proved). Tied to /repo by 50/300 files x ordered codec pairs x format "
+        "pairs through mci_ipm_encode, mideu convert (real files), mci_ipm_param_encode, paramconv.",
+        "Trusted: as C01/C06; open()/argparse glue exercised, not modelled.",
+        "DESIGN.md §8 C19"),
+    'C20': (
+        "Lean 4 theorems (row journey = drop empty, encode, decode, str(); canonical decimal cells survive int()/str(); text cells identity; rows independent; end-to-end via C01) + behavioural correspondence through the function and command entry points",
+        "Machine-checked proof: a row's journey is drop-empty / dumps / loads / str(); str(int(s)) = s for canonical decimals of "
+        "any size; text cells are rendered as themselves; the output table is the row-wise image (count and order); with "
+        "C01, every supplied well-formed column comes back as the str() of its expected value (Props/C20.lean). Tied to "
+        "/repo by 300/3000 tables with CSV metacharacters, boundary lengths, 3 codecs x 2 formats, function entry points "
+        "and cli_run on real files.",
+        "Trusted: as C01; csv module and dateutil parser are exercised, not modelled (date parser is a parameter).",
+        "DESIGN.md §8 C20"),
 }
 
 
